@@ -290,7 +290,7 @@ CHECKS["C08"] = {
     "level": "exploration",
     "rule": "handle life-cycle scripts: 1-3 threads x 1-4 cycles (acquire by lock / try / try_for / try_until, exclusive or shared side, hold, "
             "release by destruction / unlock() / move-construction with the moved-from handle destroyed first or last / move-assignment over a "
-            "handle holding another wrapper's lock) on guarded, guarded_opt(on/off), shared_guarded, shared_guarded_opt(on/off), ordered_guarded, "
+            "handle holding another wrapper's lock / move-assignment to itself) on guarded, guarded_opt(on/off), shared_guarded, shared_guarded_opt(on/off), ordered_guarded, "
             "deferred_guarded x 4 mutex types, plus guarded / guarded_opt over recursive_mutex and recursive_timed_mutex with a nested acquisition by the owner; durations include zero and negative ones, deadlines are steady_clock or system_clock time points. The shim's per-thread shadow lock set decides: bool(handle) == (one more lock held), released exactly "
             "once and only by the owning handle, null after unlock(), nothing held at quiescence, a further try-acquisition succeeds; disabled "
             "mode: non-null, zero mutex operations; a try / timed form never waits untimed for the lock that handles hold and never asks the mutex for "
